@@ -127,10 +127,14 @@ def run_case(c):
                     if f == "J":
                         bad = np.linalg.norm(cur[f] - ref, axis=1) > 1e-12 * np.max(np.linalg.norm(ref, axis=1) + 1e-300)
                     if bad.any():
-                        i = int(np.argmax(np.where(bad, np.nan_to_num(err, nan=np.inf), -1)))
-                        cell = ("ext" if ext[i] else C01.cell_label(cls0, par, loc[i]))
-                        problems.append((k, f"{f}-changes-with-unit|{cell}|vs-{rname}" + ("" if mag == 1.0 else "|excitation-scaled"),
-                                         f"{int(bad.sum())} cells, worst rel {err[i]:.3g} at local {loc[i].tolist()} mag={mag}"))
+                        # one report per distinct cell kind among the deviating cells (so that a known finding in one
+                        # kind of cell cannot hide a new deviation in another)
+                        labels = ["ext" if ext[j] else C01.cell_label(cls0, par, loc[j]) for j in np.where(bad)[0]]
+                        for lab in sorted(set(labels)):
+                            js = [j for j, l in zip(np.where(bad)[0], labels) if l == lab]
+                            i = int(js[int(np.argmax(np.nan_to_num(err[js], nan=np.inf)))])
+                            problems.append((k, f"{f}-changes-with-unit|{lab}|vs-{rname}" + ("" if mag == 1.0 else "|excitation-scaled"),
+                                             f"{len(js)} {lab} cells, worst rel {err[i]:.3g} at local {loc[i].tolist()} mag={mag}"))
                         break
             if mag == 1.0:
                 chains[np.sign(k)] = cur
